@@ -10,7 +10,9 @@
     oracle-miss / unparsable             machinery
   second request kind `asm …` (synthetic translation results, harness/src/bin/c06.rs): ok | rejected | panic | asm-mismatch
     incoherent <clause>                  (only when the verdict would be `ok`) the hypothesis of `asm_refines` fails on the dumped
-                                         translation results: a clause of `Assemble.Coherent` (keys/first/same/exitOut/reqFun),
+                                         translation results: a clause of `Assemble.Coherent` (keys/first/same/exitOut; `reqFun` only
+                                         when a guard is DROPPED, i.e. the later request is a manual edge — a successor's guard is merged
+                                         into the edge by OR and the case stays `ok` with detail `merged-guards`),
                                          or `continuation@<addr>`: the control transfers requested out of an instruction differ
                                          from what lifting that ONE instruction gives (the `oracle` field)
     asm-mismatch <first difference>      (only when the verdict would be `ok`) the Lean model of the assembly algorithm
@@ -299,7 +301,14 @@ def coherenceCheck (req ans : String) : Option String :=
       let pcs := (refPcs oracle (steps + 2) entry ms.toState []).eraseDups
       let oracle := oracle.filter (fun p => pcs.contains p.1)
       let tb : List (Nat × BTR) := tr.map (fun (a, r) => (a, r.getD (Assemble.emptyResult a)))
-      match Assemble.coherenceProblems tb manual with
+      -- `reqFun` fails harmlessly when the later of two differently guarded requests for the same pair of
+      -- instructions is a successor: the (repaired) successor loop merges its guard into the edge by OR.  It is a
+      -- dropped guard only when the later request is a manual edge (the manual-edge loop still skips duplicates).
+      let early := Assemble.reqLinks tb ++ Assemble.reqManual tb manual
+      let dropped := (Assemble.reqManual tb manual).any (fun q₂ =>
+        early.any (fun q₁ => q₁.1 == q₂.1 && q₁.2.1 == q₂.2.1 && q₁.2.2 != q₂.2.2))
+      let probs := (Assemble.coherenceProblems tb manual).filter (fun p => !(p.startsWith "reqFun") || dropped)
+      match probs with
       | p :: _ => some p
       | [] =>
         match continuationProblem tb oracle with
@@ -307,6 +316,18 @@ def coherenceCheck (req ans : String) : Option String :=
         | none => none
     | _, _, _ => some "unparsable"
   | _, _ => none
+
+/-- some pair of instructions is requested with two different guards (the edge then carries their disjunction) -/
+def mergedGuards (req ans : String) : Bool :=
+  match splitBar req, splitBar ans with
+  | head :: _, _ :: _ :: _ :: _ :: asmS :: _ =>
+    let manual := parseManual ((head.splitOn " ")[5]?.getD "m=")
+    match parseTr (asmS.drop 3).toString with
+    | some tr =>
+      let tb : List (Nat × BTR) := tr.map (fun (a, r) => (a, r.getD (Assemble.emptyResult a)))
+      (Assemble.coherenceProblems tb manual).any (fun p => p.startsWith "reqFun")
+    | none => false
+  | _, _ => false
 
 def handle (line : String) : String :=
   if line.startsWith "asm " then
@@ -333,7 +354,10 @@ def handle (line : String) : String :=
       | none =>
         match coherenceCheck req ans with
         | some d => "incoherent " ++ d ++ "\t-"
-        | none => base
+        | none =>
+          -- `ok`; the detail column says when a guard was merged (such programs are outside the hypothesis `reqFun`
+          -- of `asm_refines` and are validated per case only)
+          if mergedGuards req ans then (base.splitOn "\t").head! ++ "\tmerged-guards" else base
     | _ => base
   else base
 
